@@ -17,14 +17,19 @@ import (
 // C20 — Rewind restarts demuxing from a clean state.
 
 func TestC20Rewind(t *testing.T) {
-	rec := obs.NewRecorder("C20", "rewind", "rapid: well-formed streams (PAT before PMTs, constant PID roles, multi-section units, units over several packets) on a bytes.Reader x {explicit 188, auto-detected size} x EVERY number k of calls before Rewind (k = 0..total, the calls being NextData, NextPacket or a drawn mixture) x a second Rewind at a drawn point; oracle: Rewind returns (0, nil) and the NextData sequence afterwards equals a fresh Demuxer's on the same bytes (as does NextPacket's); non-trivial = some rewind point falls in the middle of a unit or with parsed sections still buffered (true for every stream with a multi-packet or multi-section unit); distinct by stream bytes + configuration")
+	rec := obs.NewRecorder("C20", "rewind", "rapid: well-formed streams (PAT before PMTs, constant PID roles, multi-section units, units over several packets; 30% end in the middle of a packet; the PAT's programme 0 may name a PID of its own that carries NIT sections, also before the PAT) on a bytes.Reader x {explicit 188, auto-detected size} x EVERY number k of calls before Rewind (k = 0..total, the calls being NextData, NextPacket or a drawn mixture) x a second Rewind at a drawn point; oracle: Rewind returns (0, nil) and the NextData sequence afterwards equals a fresh Demuxer's on the same bytes (as does NextPacket's); non-trivial = some rewind point falls in the middle of a unit or with parsed sections still buffered (true for every stream with a multi-packet or multi-section unit); distinct by stream bytes + configuration")
 	defer rec.Flush()
 	rapid.Check(t, func(t *rapid.T) {
 		o := defaultStreamOpts()
-		o.smallPSI, o.maxPESLen, o.maxUnits = true, 700, 3
+		o.smallPSI, o.maxPESLen, o.maxUnits, o.networkPID = true, 700, 3, true
 		m := drawStream(t, o)
 		auto := gen.Bool(t, "auto")
 		stream := m.bytes()
+		if gen.Chance(t, 30, "tail") {
+			// the input ends in the middle of a packet
+			stream = append(stream, ref.NullPacket(0xff).MustEncode()[:rapid.IntRange(1, 187).Draw(t, "taillen")]...)
+			rec.Class("truncated_last_packet")
+		}
 		if auto {
 			// keeps the 193-byte detection window free of spurious sync bytes
 			stream = append(ref.NullPacket(0xff).MustEncode(), stream...)
